@@ -102,7 +102,10 @@ def cases_for(rng, q):
     fr = frame(1, b"hi")
     total = len(short) - 3 + 28 + len(fr)
     step = 7 if q else 1
-    for cut in range(1, total, step):
+    head_end = total - len(fr)
+    # every cut around the blank line that ends the head, in both tiers; the other positions with a stride in the quick tier
+    cutset = sorted(set(list(range(1, total, step)) + list(range(max(1, head_end - 6), min(total, head_end + 3)))))
+    for cut in cutset:
         cases.append(("case", ["hs %s %s %d -1 %s 0" % (rng.choice(["sync", "async"]), hx(short), cut, hx(fr)), "read", "read"]))
     for k in range(0, total, step):
         cases.append(("case", ["hs %s %s - %d %s 0" % (rng.choice(["sync", "async"]), hx(short), k, hx(fr)), "read"]))
